@@ -29,7 +29,21 @@ def theorem_names():
 
 # ---------------------------------------------------------------- texts
 
+POOL = []
+
+
 def gen_text(rng, docnames, me):
+    # texts recur within and across sessions, so that "the same text in the same workspace gets the same diagnostics" is exercised
+    if POOL and rng.random() < 0.3:
+        return rng.choice(POOL)
+    t = gen_text_new(rng, docnames, me)
+    POOL.append(t)
+    if len(POOL) > 60:
+        del POOL[rng.randrange(len(POOL))]
+    return t
+
+
+def gen_text_new(rng, docnames, me):
     k = rng.random()
     if k < 0.5:
         t = program_text(rng, docnames, me)
@@ -253,6 +267,7 @@ def run_session(job):
     open_docs = {}
     published = {}          # uri -> (diagnostics, index of the message)
     texts_seen = []         # (text, diagnostics) for the parser comparison
+    pubs = []               # every publication in order: (document, diagnostics)
     known = []
     done = 0
     srv = None
@@ -275,6 +290,7 @@ def run_session(job):
                 diags = srv.wait_diagnostics(uri(d))
                 if diags:
                     raise Problem("diagnostics published for a closed document", diagnostics=diags)
+                pubs.append((d, diags))
                 published.pop(uri(d), None)
                 done += 1
                 continue
@@ -308,6 +324,7 @@ def run_session(job):
                 continue
             # open / change
             published[uri(d)] = (diags, idx)
+            pubs.append((d, diags))
             texts_seen.append((arg, diags))
             check_ranges("publishDiagnostics", [(uri(d), x["range"]) for x in diags], open_docs, root, known)
             done += 1
@@ -352,7 +369,8 @@ def run_session(job):
         if key(symbols or []) != key(fresh_symbols or []):
             raise Problem("workspace symbols after the session differ from a fresh server on the same final texts",
                           session=symbols, fresh=fresh_symbols, final_texts=open_docs)
-        return {"ok": True, "done": done, "texts": texts_seen, "known": known, "final": {u: (open_docs[u], refreshed[u]) for u in order}}
+        return {"ok": True, "done": done, "texts": texts_seen, "known": known, "pubs": pubs,
+                "final": {u: (open_docs[u], refreshed[u]) for u in order}}
     except Problem as e:
         return {"ok": False, "why": e.why, "detail": e.kw, "at": done, "texts": texts_seen, "known": known}
     except lsp.ServerDied as e:
@@ -408,6 +426,57 @@ def run(tier, seed):
             real.append({"why": res["why"], "detail": res["detail"], "messages": [list(m) for m in msgs[:res["at"] + 1]], "libs": LIBS})
         else:
             finals.append((r, res["final"]))
+    # ---- the Coq model of the document store (lsp/Docs.v, extracted) on the same sessions: it says which document each
+    # notification publishes for and what the analysis may depend on (the text and the workspace view); the real
+    # diagnostics must be a function of exactly that
+    okm, mmsg = C.build_model_runner()
+    groups = {}
+    nmodel = 0
+    if not okm:
+        broken.append({"extraction": mmsg[-1500:]})
+    else:
+        import sx
+        disk = "(" + " ".join("(%s %s)" % (C.hexs(k), C.hexs(v)) for k, v in sorted(LIBS.items())) + ")"
+        lines, meta = [], []
+        for (r, docnames, msgs), res in zip(jobs, results):
+            if not res["ok"]:
+                continue
+            ms = []
+            for kind, d, arg in msgs:
+                if kind == "open":
+                    ms.append("(o %s %s)" % (C.hexs(d), C.hexs(arg)))
+                elif kind == "change":
+                    ms.append("(c %s %s)" % (C.hexs(d), C.hexs(arg)))
+                elif kind == "close":
+                    ms.append("(x %s)" % C.hexs(d))
+                else:
+                    ms.append("(r %s)" % C.hexs(d or "-"))
+            lines.append("(%s (%s))" % (disk, " ".join(ms)))
+            meta.append((r, msgs, res))
+        for (r, msgs, res), out in zip(meta, C.model("lsp", lines) if lines else []):
+            nmodel += 1
+            t = sx.parse(out)
+            mp = t[0]
+            if [C.unhex(x[0]).decode() for x in mp] != [d for d, _ in res["pubs"]]:
+                real.append({"why": "the server published for other documents than the model of the document store says",
+                             "detail": {"model": [C.unhex(x[0]).decode() for x in mp], "server": [d for d, _ in res["pubs"]]},
+                             "messages": [list(m) for m in msgs], "correspondence": "lsp/Docs.v run vs ucg lsp"})
+                continue
+            for (mu, mv), (d, diags) in zip(mp, res["pubs"]):
+                if mv == "none":
+                    continue        # close: checked to be empty in the session
+                view = tuple(sorted((C.unhex(a).decode(), C.unhex(b_).decode("utf-8", "replace")) for a, b_ in mv))
+                key = (d, view)
+                norm = json.dumps(diags, sort_keys=True).replace(r, "<root>")
+                groups.setdefault(key, []).append((norm, msgs))
+        for key, items in groups.items():
+            if len(set(n for n, _ in items)) > 1:
+                a, b_ = [x for x in items if x[0] != items[0][0]][0], items[0]
+                real.append({"why": "the same text in the same workspace view got different diagnostics in two sessions (the diagnostics depend on the history)",
+                             "detail": {"document": key[0], "view": dict(key[1]), "one": json.loads(b_[0]), "other": json.loads(a[0])},
+                             "messages": [list(m) for m in a[1]], "other_session": [list(m) for m in b_[1]]})
+    cov["model_sessions_compared"] = nmodel
+    cov["analysis_inputs_seen_more_than_once"] = sum(1 for v in groups.values() if len(v) > 1)
     # ---- a syntax diagnostic appears exactly when the compiler's parser rejects the text, and at the same position
     uniq = {}
     for t, d in texts:
